@@ -288,6 +288,7 @@ pub fn run(args: &Args) -> i32 {
             quick_scale: 1,
             thorough_scale: 2,
             extra_bases: vec!["B3"],
+            quick_wall: 55.0,
             ..Default::default()
         },
         Arc::new(oracle2),
